@@ -542,6 +542,7 @@ def gen_gcblock(rng):
     g.nsnap += 1
     snap_i = g.nsnap
     consumer = ia
+    stop = rng.random() < 0.3
     actors = [dict(name="U", prog=writer_prog(g, rng, [hold], ntx=1, marker=1)),
               dict(name="I", prog=[dict(op="snap", id=snap_i),
                                    dict(op="next", it=consumer, src={"kind": "snap", "id": snap_i}, take=-1, w=g.chan()),
@@ -550,7 +551,17 @@ def gen_gcblock(rng):
     g.snaps[snap_i] = dict(g.tgen)
     g.iters[consumer]["lastgen"] = g.tgen[a]
     sched = ["U"] * rng.choice([4, 5, 6]) + ["I"] * 4 + ["GC"] * rng.choice([3, 8, 12]) + ["W"] * rng.choice([3, 9, 20])
-    sched += ["GC"] * 3 + ["U"] * 20 + ["GC"] * 20 + ["W"] * 20
+    if stop:
+        # the database is stopped while the collector is in the middle of a pass (possibly waiting for a table lock):
+        # whatever it does then, it must not keep a lock; later transactions on its tables must still be granted
+        actors.append(dict(name="S", prog=[dict(op="dbstop")]))
+        g.ntx += 1
+        g.nsnap += 1
+        actors.append(dict(name="X", prog=[dict(op="wtxn", tx=g.ntx, tables=[a, b]),
+                                           dict(op="insert", tx=g.ntx, t=a, obj=simple_obj(g, 4, 9), guard=0, gsym="", w=0),
+                                           dict(op="commit", tx=g.ntx, snap=g.nsnap)]))
+        sched += ["S"] * 2
+    sched += ["GC"] * 3 + ["U"] * 20 + ["GC"] * 20 + ["W"] * 20 + (["X"] * 30 if stop else [])
     for w in list(g.wtx):
         g.wtx.pop(w)
     s = g.snap()
